@@ -108,35 +108,22 @@ func c07Configs(env *engine.Env) []c07Config {
 	out = append(out, c07Config{name: "many-files", heavy: true, doc: func(env *engine.Env, root string) fixture.Doc {
 		return Setting{Name: "default"}.doc([]model.Entry{{Src: "many", Dst: "/opt/many", Type: "tree"}}, root)
 	}})
+	// files larger than every compressor window / parallel-compression threshold (21 MiB in all)
+	out = append(out, c07Config{name: "huge-files", heavy: true, doc: func(env *engine.Env, root string) fixture.Doc {
+		return Setting{Name: "default"}.doc([]model.Entry{{Src: "huge", Dst: "/opt/huge", Type: "tree"}, {Src: "huge/noise.bin", Dst: "/opt/second-copy.bin"}}, root)
+	}})
 	return out
 }
 
 func setupC07(env *engine.Env) error {
-	if err := setupTree(env); err != nil {
-		return err
-	}
-	t := tree(env)
-	dir := t.P("many")
-	if _, err := os.Stat(dir); err == nil {
-		return nil
-	}
-	os.MkdirAll(dir, 0o755)
-	for i := 0; i < 900; i++ {
-		p := filepath.Join(dir, fmt.Sprintf("file-%04d.dat", i))
-		if err := os.WriteFile(p, fixture.Noise(64+i%7, uint64(i)), 0o644); err != nil {
-			return err
-		}
-		os.Chtimes(p, fixture.T0, fixture.T0)
-	}
-	os.Chtimes(dir, fixture.T0, fixture.T0)
-	return nil
+	return setupTree(env)
 }
 
 func init() {
 	engine.Register(&engine.Prop{
 		ID:    "C07",
 		Level: "model_checking",
-		Rule: "configurations = the 25 entry templates, every compression setting with a multi-block payload, a metadata-rich configuration with scripts and changelog, a 900-file tree; x 5 formats x the environment alphabet: " +
+		Rule: "configurations = the 25 entry templates, every compression setting with a multi-block payload, a metadata-rich configuration with scripts and changelog, a 2000-file tree, a 30 MiB payload of files beyond every compressor window; x 5 formats x the environment alphabet: " +
 			"inproc (3 repetitions, GOMAXPROCS in {1,2,4,8,16}), subproc (the nfpm binary built from the tree under TZ in {UTC, Asia/Tokyo, America/St_Johns}, GOMAXPROCS in {1,16}, sources by relative path from another working directory), sde (SOURCE_DATE_EPOCH in {0, 1, 1700000000} instead of mtime), wallclock (two builds 2.1 s apart), hostfile (a file does / does not exist on the build host at a symlink entry's target), " +
 			"and on the woven copy: clock (two clocks 400 days apart; any byte difference or any clock read with a configured mtime is a violation), maporder (every woven range over a string-keyed map under all key orders for <=4 keys, else sorted/reversed/rotations, <=1 deviation; thorough 2), hostname (two host names with rpm.buildhost configured); " +
 			"oracle: all outputs of one configuration byte-identical, and every timestamp decoded anywhere in the package is the configured mtime, an explicit entry mtime or a source's on-disk mtime; non-trivial = a package was built; distinct = distinct (configuration, format, output hash)",
